@@ -36,6 +36,7 @@ CONSTANTS
   MCExtra = %(extra)s
   MCMulti = %(multi)s
   MCHow = %(how)s
+  MCSteal = %(steal)s
   MCEniGone = %(enigone)s
   MCEnis = %(enis)s
   BadDesign = "%(bad)s"
@@ -71,7 +72,16 @@ OBSERVE_SCEN = [
      dict(a="setup", p=2, i=0, dp="policy", fam="v4", eni=1, multi=False, extra=1, trunk=False, aset=0, peer=True, how="", keep=False, **{"def": True}),
      dict(a="setup", p=3, i=0, dp="policy", fam="dual", eni=2, multi=False, extra=0, trunk=False, aset=0, peer=True, how="", keep=False, **{"def": True}),
      dict(a="enigone", eni=1),
-     dict(a="teardown", p=1, how="dp"), dict(a="teardown", p=2, how="cni"), dict(a="teardown", p=3, how="cni")]]
+     dict(a="teardown", p=1, how="dp"), dict(a="teardown", p=2, how="cni"), dict(a="teardown", p=3, how="cni")],
+    # pod 1's DEL is lost; its address goes to pod 2 on the same ENI and, after pod 2, pod 3's address to pod 2's slot on the other ENI;
+    # the late DELs of the old pods run afterwards
+    [dict(a="setup", p=1, i=0, dp="policy", fam="dual", eni=1, multi=False, extra=0, trunk=False, aset=0, peer=True, how="", keep=False, steal=0, **{"def": True}),
+     dict(a="setup", p=3, i=0, dp="policy", fam="v4", eni=1, multi=False, extra=1, trunk=False, aset=0, peer=True, how="", keep=False, steal=0, **{"def": True}),
+     dict(a="setup", p=2, i=0, dp="policy", fam="dual", eni=1, multi=False, extra=0, trunk=False, aset=0, peer=True, how="", keep=False, steal=1, **{"def": True}),
+     dict(a="teardown", p=1, how="cni"),
+     dict(a="teardown", p=2, how="cni"),
+     dict(a="setup", p=2, i=0, dp="policy", fam="v4", eni=2, multi=False, extra=0, trunk=False, aset=0, peer=True, how="", keep=False, steal=3, **{"def": True}),
+     dict(a="teardown", p=3, how="dp"), dict(a="teardown", p=2, how="dp")]]
 
 
 class Sub:
@@ -115,12 +125,14 @@ def mc_run(ctx, name, params, workers, expect_refused=False, timeout=1500):
 def model_checking(ctx):
     """Exhaustive runs of the bounded closure (reference design accepted, invariant implied) and of the seeded design errors."""
     q = ctx.quick
-    base = dict(ns="{0, 1, 2}", atts="{1, 2, 3, 4}", pods="{1, 2}", extra="{1}", multi="{FALSE, TRUE}", enis="{1, 2}", bad="", inv="InvC13", how='{"cni"}', enigone="FALSE")
+    base = dict(ns="{0, 1, 2}", atts="{1, 2, 3, 4}", pods="{1, 2}", extra="{1}", multi="{FALSE, TRUE}", enis="{1, 2}", bad="", inv="InvC13", how='{"cni"}', enigone="FALSE", steal="FALSE")
     runs = [("all4", dict(base, dps='{"policy", "exclusive", "ipvlan", "vlan"}', fams='{"dual"}', trunk="{FALSE}"), 8 if q else 6),
             ("fam", dict(base, dps='{"policy", "ipvlan"}', fams='{"v4", "v6", "dual"}', trunk="{FALSE, TRUE}", extra="{0, 1}", multi="{FALSE}", enis="{1}"), 4),
             # fallback DEL (GenericTearDown alone) leaves rules behind; the slot's next pod may get the same address on either ENI
             # an ENI vanishes while pods use it: their teardown runs without an ENI index and must still remove their rules
             ("enigone", dict(base, dps='{"policy", "exclusive"}', fams='{"dual"}', trunk="{FALSE}", multi="{FALSE}" if q else "{FALSE, TRUE}", enigone="TRUE"), 4),
+            # a pod is given the address of a veth pod that was never torn down (lost / late DEL), the old pod's fallback DEL comes later
+            ("steal", dict(base, dps='{"policy"}' if q else '{"policy", "exclusive"}', fams='{"dual"}', trunk="{FALSE}", multi="{FALSE}", steal="TRUE"), 4),
             ("reuse", dict(base, dps='{"policy"}', fams='{"v4"}' if q else '{"dual"}', trunk="{FALSE}", multi="{FALSE}", how='{"cni", "generic"}'), 4)]
     if not q:
         runs += [("pods3", dict(base, ns="{0, 1, 2, 3}", atts="{1, 2, 3, 4, 5, 6}", pods="{1, 2, 3}", dps='{"policy"}', fams='{"v4", "dual"}', trunk="{FALSE}"), 6),
@@ -134,6 +146,8 @@ def model_checking(ctx):
     # a stale from-rule of a re-used address survives Setup: only manifests after a generic teardown and re-use on the other ENI
     bad.append(("teardown_skips_rules_without_eni", dict(base, dps='{"policy"}', fams='{"dual"}', trunk="{FALSE}", bad="teardown_skips_rules_without_eni",
                                                          inv="OrphanRefused", multi="{FALSE}", enigone="TRUE"), 1))
+    bad.append(("stale_route_kept", dict(base, dps='{"policy"}', fams='{"dual"}', trunk="{FALSE}", bad="stale_route_kept", inv="StealRefused",
+                                         multi="{FALSE}", steal="TRUE"), 1))
     bad.append(("stale_from_rule_kept", dict(base, dps='{"policy"}', fams='{"dual"}', trunk="{FALSE}", bad="stale_from_rule_kept", inv="ReuseRefused",
                                              multi="{FALSE}", how='{"generic"}'), 1))
     out = {}
@@ -184,6 +198,14 @@ def tags(t):
             live.discard(r["pod"])
             s.add("teardown")
             if live: s.add("teardown_while_others_live")
+    holder = {}
+    for r in t:
+        if r["ev"] == "setup_d" and r["ok"]:
+            key = json.dumps([r["cfg"]["ip4"], r["cfg"]["ip6"]])
+            if key in holder and holder[key] != r["cfg"]["pod"]: s.add("address_taken_over_before_del")
+            holder[key] = r["cfg"]["pod"]
+        if r["ev"] == "teardown_d":
+            for k2 in [k2 for k2, v2 in holder.items() if v2 == r["pod"]]: del holder[k2]
     gone = set()
     for r in t:
         if r["ev"] == "enigone":
@@ -196,7 +218,7 @@ def tags(t):
     return s
 
 
-RELEVANT = {"teardown_without_eni_index", "address_reused_after_fallback_del", "pods_share_eni", "multi_network_second_interface", "trunk", "extra_routes", "dual_stack", "v6_only", "teardown_while_others_live"}
+RELEVANT = {"address_taken_over_before_del", "teardown_without_eni_index", "address_reused_after_fallback_del", "pods_share_eni", "multi_network_second_interface", "trunk", "extra_routes", "dual_stack", "v6_only", "teardown_while_others_live"}
 
 
 def run_harness(ctx, binary, test, scen_file, nrandom, nshard, netns, extra_env=None):
@@ -357,7 +379,8 @@ def run(ctx):
                rule="scenarios = TLC simulation of Datapath_mc.tla (setup of a pod interface with datapath x family x ENI x default route x "
                     "multi-network x extra routes x trunk x address plan, second interface of a multi-network pod, teardown as CNI DEL, by "
                     "PolicyRoute.Teardown alone or as the fallback DEL = GenericTearDown alone, a new pod given the address of the slot's "
-                    "previous pod on the same or the other ENI, an ENI vanishing from the node while pods use it so that their teardown runs with ENIIndex 0) + seeded random scenarios with random address plans; level 1 = all four datapaths' "
+                    "previous pod on the same or the other ENI, an ENI vanishing from the node while pods use it so that their teardown runs with ENIIndex 0, a pod given the address of a veth pod "
+                    "that was never torn down, whose late fallback DEL follows) + seeded random scenarios with random address plans; level 1 = all four datapaths' "
                     "generators judged with the model kernel, level 2 = real Setup/Teardown of policy-route veth and exclusive ENI in private "
                     "network namespaces judged on kernel dumps; non-trivial = trace carries one of %s; distinct by trace hash" % sorted(RELEVANT),
                samples=sample)
@@ -382,6 +405,9 @@ def run(ctx):
         "pod's rules/routes; the leftovers stay in the state and every later Setup (same address on the same or another ENI) is judged with them",
         "after an ENI vanished nothing is required of the traffic of the pods that used it; their Teardown (ENIIndex 0, as parseTearDownConf builds it "
         "when the MAC no longer resolves) must still remove their rules/routes/links and leave the others intact",
+        "when a pod is given an address another pod still carries, that pod is taken to be gone (superseded: nothing promised about it); its late DEL "
+        "is the fallback DEL (the daemon, having recycled the address, has no record of it) -- a full PolicyRoute.Teardown of the OLD pod would select "
+        "rules by the shared address and remove the new pod's rules; that history needs the daemon to hand out an address it still records (outside C13)",
         "level 1 applies a nic.Conf with the model's semantics of addr/route/rule replace; nic.Setup and the Ensure* helpers themselves run at level 2 only"])
 
 
